@@ -383,6 +383,15 @@ func c10(r *Report) {
 			errorsReturnedRule(r, r.W.Fn("h2", n), false)
 		}
 
+		// ... starting with the send methods of the queued frames
+		for _, tn := range []string{"queuedDataFrame", "queuedHeaderFrame", "queuedPushPromiseFrame", "queuedPriorityFrame", "queuedRSTStreamFrame"} {
+			if T := r.W.Named("h2", tn); T != nil {
+				if send := r.W.method(T, "send"); send != nil && send.Blocks != nil {
+					r.Touch(send)
+					sendErrorRule(r, send)
+				}
+			}
+		}
 		g := G(rf)
 		var readerDone, writerErr, frameReady *ssa.MakeChan
 		for _, in := range instrs(rf) {
